@@ -328,10 +328,11 @@ type mstate struct {
 	sets  map[int]uint32 // incarnation -> set of triple indexes
 	slots map[string]int // slot (per name) -> incarnation held
 	next  int
-	// listed: a GraphNames call happened earlier in the history. Not part of what the store must hold, but
-	// part of the search state: an implementation may keep something from a listing (a cache of names),
-	// so histories with and without an earlier listing are explored separately.
-	listed bool
+	// listed: what the last GraphNames call of the history returned ("" = no listing yet). Not part of what
+	// the store must hold, but part of the search state: an implementation may keep something from a listing
+	// (a cache of names, patched or invalidated by later operations), so histories are kept apart by the
+	// content of their last listing.
+	listed string
 }
 
 func newM() *mstate {
@@ -361,7 +362,7 @@ func (m *mstate) step(o sop) (wantErr bool) {
 		}
 		delete(m.live, o.Name)
 	case "names":
-		m.listed = true
+		m.listed = "listed" + m.liveNames()
 	case "add":
 		if inc, ok := m.slots[o.Name]; ok {
 			m.sets[inc] |= 1 << uint(o.T)
@@ -385,9 +386,7 @@ func (m *mstate) liveNames() string {
 
 func (m *mstate) canon(names []string) string {
 	var b strings.Builder
-	if m.listed {
-		b.WriteString("listed;")
-	}
+	b.WriteString(m.listed + ";")
 	for _, n := range names {
 		inc, ok := m.live[n]
 		if ok {
@@ -541,7 +540,8 @@ func runStore(path []sop, names []string, u []*triple.Triple) (errs []bool, list
 var l2names = []string{"?a", "?b", "?c"}
 
 type l2case struct {
-	Path []sop `json:"path"`
+	Path []sop  `json:"path"`
+	Cfg  string `json:"cfg,omitempty"`
 }
 
 func checkL2(path []sop, names []string, u []*triple.Triple) (bool, string, string) {
@@ -577,10 +577,18 @@ func checkL2(path []sop, names []string, u []*triple.Triple) (bool, string, stri
 	return true, "", ""
 }
 
+// level2 runs the store-level search in two configurations: (a) two names x three triples, no listings inside
+// the history; (b) three names x one triple with GraphNames as an operation of the history.
 func level2(r *common.Run, maxDepth int) {
-	names := l2names
-	u := l2universe()
-	ops := []sop{{Kind: "names"}}
+	level2cfg(r, maxDepth, "a", l2names[:2], l2universe(), false)
+	level2cfg(r, maxDepth, "b", l2names, l2universe()[:1], true)
+}
+
+func level2cfg(r *common.Run, maxDepth int, label string, names []string, u []*triple.Triple, withNames bool) {
+	var ops []sop
+	if withNames {
+		ops = append(ops, sop{Kind: "names"})
+	}
 	for _, n := range names {
 		ops = append(ops, sop{Kind: "new", Name: n}, sop{Kind: "get", Name: n}, sop{Kind: "del", Name: n})
 		for t := range u {
@@ -609,7 +617,7 @@ func level2(r *common.Run, maxDepth int) {
 				path := append(append([]sop{}, nd.path...), o)
 				ok, shape, d := checkL2(path, names, u)
 				if !ok {
-					r.Fail(common.Failure{Check: "l2", Class: "store-history", Shape: shape, Case: l2case{path}, Detail: d})
+					r.Fail(common.Failure{Check: "l2", Class: "store-history", Shape: shape, Case: l2case{Path: path, Cfg: label}, Detail: d})
 				}
 				m := newM()
 				for _, p := range path {
@@ -634,16 +642,18 @@ func level2(r *common.Run, maxDepth int) {
 		frontier = next
 		depth++
 	}
+	r.Set("l2"+label+"_fixpoint", len(frontier) == 0)
 	if len(frontier) > 0 {
-		r.Set("l2_fixpoint", false)
-	} else {
-		r.Set("l2_fixpoint", true)
+		r.SetCapped()
 	}
 	r.Add("states", states)
 	r.Add("transitions", trans)
 	r.Add("traces_validated_against_impl", trans)
-	r.Set("l2_states", states)
-	r.Set("l2_depth", depth)
+	r.Set("l2"+label+"_states", states)
+	r.Set("l2"+label+"_depth", depth)
+	if label != "a" {
+		return
+	}
 	r.Sample(map[string]interface{}{"level": 2, "path": []sop{{Kind: "new", Name: "?a"}, {"add", "?a", 0}, {Kind: "del", Name: "?a"}, {Kind: "new", Name: "?a"}, {"add", "?a", 1}}})
 }
 
@@ -659,7 +669,7 @@ func main() {
 	r.Replayer("l2", func(raw json.RawMessage) (bool, string) {
 		var c l2case
 		json.Unmarshal(raw, &c)
-		ok, _, d := checkL2(c.Path, l2names, l2universe())
+		ok, _, d := checkL2(c.Path, l2names, l2universe()) // the names and triples of both configurations are prefixes of these
 		return ok, d
 	})
 	r.MaybeReplay()
@@ -667,6 +677,6 @@ func main() {
 	r.Assume("successor states are produced by replaying the BFS-shortest operation path on a fresh memory store; merged model states are licensed by checking every transition out of every state")
 	level2(r, r.Pick(12, 30))
 	level1(r, r.Pick(11, 15))
-	r.Set("rule", "BFS over StoreModel states; level 1: all subsets of the triple universe x all add/remove batches of size 0-2; level 2: store with 2 names, handle slots incl. stale handles, to fixpoint")
+	r.Set("rule", "BFS over StoreModel states; level 1: all subsets of the triple universe x all add/remove batches of size 0-2; level 2: store with 2 names x 3 triples, and 3 names x 1 triple with GraphNames calls inside the history (state keeps the content of the last listing), handle slots incl. stale handles, to fixpoint or the depth bound")
 	r.Finish()
 }
